@@ -444,6 +444,35 @@ func runC17(c *Ctx) {
 		c.Check(n == 1, "C17.G4-context-index", idxFn.Name+" › one index", idxFn.SSA.Pos(), "one map of context ID to entry", "expected one per-context map update")
 	}
 	c.Floor("C17.G4-context-index", 3)
+	// the record expanded is the record the source sent: the provider sources hand on what they decoded, without
+	// writing to it (an "empty" extended-providers object dropped on the fetch path loses the contextual entries it
+	// carries: the same record then expands differently depending on how it entered the cache)
+	{
+		nSrc := 0
+		for _, f := range c.Funcs(pcachePkg) {
+			if f.SSA.Signature.Recv() == nil || (f.SSA.Name() != "Fetch" && f.SSA.Name() != "FetchAll") {
+				continue
+			}
+			nSrc++
+			bad := token.NoPos
+			instrsDeep(f.SSA, func(_ *ssa.Function, in ssa.Instruction) {
+				st, ok := in.(*ssa.Store)
+				if !ok {
+					return
+				}
+				a := c.E(st.Addr)
+				if a.Op != "field" {
+					return
+				}
+				switch fieldOwner(a) {
+				case "ProviderInfo", "ExtendedProviders", "ContextualExtendedProviders":
+					bad = st.Pos()
+				}
+			})
+			c.Check(!bad.IsValid(), "C17.G5-source-record-as-fetched", f.Name+" › hands on what it decoded", f.SSA.Pos(), "no field of the fetched provider record is written by the source", "the source rewrites the record it fetched (at "+c.pos(bad)+"): extended providers the indexer sent are dropped or changed before the cache expands them")
+		}
+		c.Floor("C17.G5-source-record-as-fetched", 2)
+	}
 }
 
 func matchIs(p P, x *X) bool {
